@@ -1,0 +1,13 @@
+//go:build verif
+// +build verif
+
+package x509
+
+import "hash"
+
+// Hook for the verification harness (build tag "verif" only; property C04, harness/c04hmac.go).
+
+// VerifPbkdf exposes pbkdf, the package's own copy of PBKDF2 (pkcs8.go), for an arbitrary hash constructor.
+func VerifPbkdf(password, salt []byte, iter, keyLen int, h func() hash.Hash) []byte {
+	return pbkdf(password, salt, iter, keyLen, h)
+}
